@@ -426,6 +426,25 @@ pub fn run(thorough: bool, seed: u64, driver: &str, rep: &mut Report) {
             reqs.push(format!("ar.load\t{arena}"));
             expect.push((ctx.clone(), "ok", true));
             let find = |f: &str, arg: &str| calls.iter().find(|(ff, aa, _)| ff == f && aa == arg).map(|x| x.2);
+            // the two-tree comparisons: "an error value or a VALID answer" — whether a pair is comparable at all (common
+            // leaf set, unique names, lengths present where the measure needs them) is decided by the split model
+            // (the split model speaks about trees: an arena without a live root — `Tree::new()`, everything pruned — has no
+            // abstraction, so for those only the no-panic clause above is checked)
+            let one_root = |t: &Tree| live_roots(&slots_of(t)).len() == 1;
+            if !s.forest && !s.name.starts_with("stale-") && one_root(&s.tree) {
+                for o in partners.iter().filter(|o| !o.forest && !o.name.starts_with("stale-") && one_root(&o.tree)) {
+                    if let Ok(arena2) = enc_arena_scaled(&slots_of(&o.tree)) {
+                        reqs.push(format!("ar.load2\t{arena2}"));
+                        expect.push((format!("{ctx}\npartner: {}\nbuilt by: {}", o.name, o.build), "ok", true));
+                        for (q, f) in [("sp\trf", "robinson_foulds"), ("sp\trfn", "robinson_foulds_norm"), ("sp\twrf", "weighted_robinson_foulds"), ("sp\tkf2", "khuner_felsenstein"), ("sp\tcmp", "compare_topologies")] {
+                            if let Some(c) = find(f, &o.name) {
+                                reqs.push(q.to_string());
+                                expect.push((format!("{ctx}\npartner: {}\nbuilt by: {}\ncall: {f}({})", o.name, o.build, o.name), c, true));
+                            }
+                        }
+                    }
+                }
+            }
             let mut tie = |req: String, f: &str, arg: &str| {
                 if let Some(c) = find(f, arg) {
                     reqs.push(req);
